@@ -9,6 +9,12 @@ package main
 //        the `re` tokens carry regexp.FindAllSubmatchIndex(src, limit) as the model's oracle;
 //        exec recomputes it and answers bad-oracle when the line is stale
 //   c13.utf8 <n> <src hex>×n                      convert_utf8_bytes with fields f0…f(n-1) on one event
+//   c13.tok <mask 1..63> <data hex>               hash normalizer restricted to the by-bytes patterns of mask
+//        (bit 0 curly, 1 square, 2 parenthesized, 3 double, 4 single, 5 grave quoted): Normalize(nil, data)
+//   c13.rename <preserve 0|1> <n> (<plen> <key hex>… <name hex>)… <JTree>      rename with override = !preserve
+//   c13.move allow <tlen> <key hex>… <nf> (<plen> <key hex>…)… <JTree>          move, mode allow
+//   c13.move block <target key hex> <nb> <key hex>… <JTree>                     move, mode block
+//        result of the last three: ok <JTree of the re-decoded Encode output>
 //   result: ok <hex>… | panic:<kind> | cfg-rejected
 
 import (
@@ -20,6 +26,7 @@ import (
 	"strings"
 
 	"github.com/ozontech/file.d/pipeline"
+	"github.com/ozontech/file.d/plugin/action/hash/normalize"
 	insaneJSON "github.com/ozontech/insane-json"
 
 	"verifharness/internal/hx"
@@ -29,6 +36,9 @@ import (
 func init() {
 	execs["c13.subst"] = c13Isolated("c13.subst", c13SubstDirect)
 	execs["c13.utf8"] = c13Isolated("c13.utf8", c13Utf8Direct)
+	execs["c13.tok"] = c13Isolated("c13.tok", c13TokDirect)
+	execs["c13.rename"] = c13Isolated("c13.rename", c13RenameDirect)
+	execs["c13.move"] = c13Isolated("c13.move", c13MoveDirect)
 }
 
 // c13Lit renders s as a JSON string literal that survives the substitution argument parser:
@@ -212,6 +222,134 @@ func c13Utf8Direct(t *hx.Toks) string {
 	})
 }
 
+var c13TokNames = []string{"curly_bracketed", "square_bracketed", "parenthesized", "double_quoted", "single_quoted", "grave_quoted"}
+
+var c13TokCache = map[int]normalize.Normalizer{}
+
+func c13TokDirect(t *hx.Toks) (res string) {
+	mask := t.Int()
+	data := t.Bytes()
+	if t.Err != nil || !t.Done() || mask < 1 || mask > 63 {
+		return "bad-case"
+	}
+	n, ok := c13TokCache[mask]
+	if !ok {
+		var names []string
+		for i, nm := range c13TokNames {
+			if mask&(1<<i) != 0 {
+				names = append(names, nm)
+			}
+		}
+		var err error
+		n, err = normalize.NewTokenNormalizer(normalize.TokenNormalizerParams{BuiltinPatterns: strings.Join(names, "|")})
+		if err != nil || n == nil {
+			return "cfg-rejected"
+		}
+		c13TokCache[mask] = n
+	}
+	defer func() {
+		if r := recover(); r != nil {
+			res = "panic:" + c13PanicKind(r)
+		}
+	}()
+	out := n.Normalize(nil, data)
+	return "ok " + hx.Enc(out)
+}
+
+func c13Selector(path [][]byte) string {
+	parts := make([]string, len(path))
+	for i, p := range path {
+		parts[i] = strings.ReplaceAll(string(p), ".", `\.`)
+	}
+	return strings.Join(parts, ".")
+}
+
+func c13ReadPath(t *hx.Toks) [][]byte {
+	n := t.Int()
+	if t.Err != nil || n < 0 || n > 64 {
+		return nil
+	}
+	out := make([][]byte, 0, n)
+	for i := 0; i < n; i++ {
+		out = append(out, t.Bytes())
+	}
+	return out
+}
+
+// c13TreeResult: what a consumer of the event sees: Encode, re-decode, token form
+func c13TreeResult(root *insaneJSON.Root) string {
+	out, st := c13Encode(root.Node)
+	if st != "ok" {
+		return st
+	}
+	r, err := insaneJSON.DecodeBytes(out)
+	if err != nil {
+		return "badjson:insane"
+	}
+	defer insaneJSON.Release(r)
+	return "ok " + jt.FromNode(r.Node).Tok()
+}
+
+func c13RenameDirect(t *hx.Toks) string {
+	preserve := t.Bool()
+	n := t.Int()
+	if t.Err != nil || n < 0 || n > 64 {
+		return "bad-case"
+	}
+	var sb strings.Builder
+	fmt.Fprintf(&sb, `{"override":"%v"`, !preserve)
+	for i := 0; i < n; i++ {
+		path := c13ReadPath(t)
+		name := t.Bytes()
+		if t.Err != nil {
+			return "bad-case"
+		}
+		k, _ := json.Marshal(c13Selector(path))
+		v, _ := json.Marshal(string(name))
+		sb.WriteString(",")
+		sb.Write(k)
+		sb.WriteString(":")
+		sb.Write(v)
+	}
+	sb.WriteString("}")
+	ev := jt.Parse(t)
+	if t.Err != nil || !t.Done() {
+		return "bad-case"
+	}
+	return c13RunOne("rename", []byte(sb.String()), ev, c13TreeResult)
+}
+
+func c13MoveDirect(t *hx.Toks) string {
+	mode := t.Next()
+	cfg := map[string]any{"mode": mode}
+	switch mode {
+	case "allow":
+		cfg["target"] = c13Selector(c13ReadPath(t))
+		nf := t.Int()
+		fields := make([]string, 0)
+		for i := 0; i < nf && t.Err == nil; i++ {
+			fields = append(fields, c13Selector(c13ReadPath(t)))
+		}
+		cfg["fields"] = fields
+	case "block":
+		cfg["target"] = c13Selector([][]byte{t.Bytes()})
+		nb := t.Int()
+		fields := make([]string, 0)
+		for i := 0; i < nb && t.Err == nil; i++ {
+			fields = append(fields, c13Selector([][]byte{t.Bytes()}))
+		}
+		cfg["fields"] = fields
+	default:
+		return "bad-case"
+	}
+	ev := jt.Parse(t)
+	if t.Err != nil || !t.Done() {
+		return "bad-case"
+	}
+	cfgJSON, _ := json.Marshal(cfg)
+	return c13RunOne("move", cfgJSON, ev, c13TreeResult)
+}
+
 // ---------------------------------------------------------------- generators
 
 func c13AllStrings(alpha []string, maxLen int, f func(s string)) {
@@ -346,6 +484,87 @@ func genC13Cores(w *bufio.Writer, rng *hx.Rng, tier string) {
 			}
 		}
 		fmt.Fprintf(w, "c13.subst %d %s %s\n", nf, strings.Join(toks, " "), hx.Enc(src))
+	}
+
+	// ---- hash normalizer tokenizer: every string over quotes / brackets / backslash, every mask on short ones
+	tlen := 6
+	if full {
+		tlen = 8
+	}
+	c13AllStrings([]string{"\"", "{", "}", "\\", "a"}, tlen, func(s string) {
+		for _, mask := range []int{63, 8, 1, 9} {
+			if len(s) > 4 && mask != 63 && !full {
+				continue
+			}
+			fmt.Fprintf(w, "c13.tok %d %s\n", mask, hx.Enc([]byte(s)))
+		}
+	})
+	tokAlpha := []string{"\"", "'", "`", "{", "}", "[", "]", "(", ")", "\\", "a", " ", "\"\"", "''", "\xff"}
+	ntok := 4000
+	if full {
+		ntok = 100000
+	}
+	for i := 0; i < ntok; i++ {
+		var sb strings.Builder
+		for k := rng.Range(0, 14); k > 0; k-- {
+			sb.WriteString(tokAlpha[rng.Intn(len(tokAlpha))])
+		}
+		fmt.Fprintf(w, "c13.tok %d %s\n", rng.Range(1, 63), hx.Enc([]byte(sb.String())))
+	}
+
+	// ---- rename / move over trees with unique keys from a small pool
+	keys := []string{"a", "b", "c", "d", "t"}
+	pathTok := func(p []string) string {
+		var sb strings.Builder
+		fmt.Fprintf(&sb, "%d", len(p))
+		for _, k := range p {
+			sb.WriteString(" " + hx.Enc([]byte(k)))
+		}
+		return sb.String()
+	}
+	randPath := func(maxLen int) []string {
+		n := rng.Range(1, maxLen)
+		p := make([]string, n)
+		for i := range p {
+			p[i] = keys[rng.Intn(len(keys))]
+		}
+		return p
+	}
+	nf := 2500
+	if full {
+		nf = 60000
+	}
+	treeCfg := jt.GenCfg{MaxDepth: 3, MaxWidth: 5, Keys: keys, UniqueKeys: true, Strings: []string{"x", "", "v w"}}
+	for i := 0; i < nf; i++ {
+		var root *jt.Tree
+		if rng.Chance(1, 12) {
+			root = jt.GenValue(rng, treeCfg)
+		} else {
+			root = jt.GenObj(rng, treeCfg)
+		}
+		switch rng.Intn(3) {
+		case 0:
+			n := rng.Range(1, 3)
+			fmt.Fprintf(w, "c13.rename %s %d", hx.B(rng.Bool()), n)
+			for j := 0; j < n; j++ {
+				fmt.Fprintf(w, " %s %s", pathTok(randPath(3)), hx.Enc([]byte(keys[rng.Intn(len(keys))])))
+			}
+			fmt.Fprintf(w, " %s\n", root.Tok())
+		case 1:
+			n := rng.Range(0, 3)
+			fmt.Fprintf(w, "c13.move allow %s %d", pathTok(randPath(3)), n)
+			for j := 0; j < n; j++ {
+				fmt.Fprintf(w, " %s", pathTok(randPath(3)))
+			}
+			fmt.Fprintf(w, " %s\n", root.Tok())
+		default:
+			n := rng.Range(0, 3)
+			fmt.Fprintf(w, "c13.move block %s %d", hx.Enc([]byte(keys[rng.Intn(len(keys))])), n)
+			for j := 0; j < n; j++ {
+				fmt.Fprintf(w, " %s", hx.Enc([]byte(keys[rng.Intn(len(keys))])))
+			}
+			fmt.Fprintf(w, " %s\n", root.Tok())
+		}
 	}
 
 	// ---- convert_utf8_bytes: every string over the scanner's alphabet, then escape-rich random ones
